@@ -9,12 +9,14 @@ mkdir -p $OUT
 cp $SRC/patch.diff $OUT/patch.diff
 cp $SRC/$DEMO $OUT/$DEMO
 [ -f $SRC/notes.md ] && cp $SRC/notes.md $OUT/notes.md
-CONF=$(/verif/tools/confirm_seed.sh $PROP-$X $OUT/patch.diff $OUT/$DEMO "$DEST" "$CMD" --full 2>&1 | grep "^SEED-RESULT" | sed 's/^SEED-RESULT //')
+RAW=$(/verif/tools/confirm_seed.sh $PROP-$X $OUT/patch.diff $OUT/$DEMO "$DEST" "$CMD" --full 2>&1)
+CONF=$(echo "$RAW" | grep "^SEED-RESULT" | sed 's/^SEED-RESULT //')
+REGR=$(echo "$RAW" | grep "suite-regression" | tr '\n' ';')
 DET=$(timeout 1800 /verif/tools/mutcheck.sh $OUT/patch.diff $PROP 2>&1 | grep -v "^proptest\|KNOWN")
 rc=$?
-python3 - "$PROP" "$X" "$DEST" "$CMD" "$CONF" "$OUT" <<PY
+python3 - "$PROP" "$X" "$DEST" "$CMD" "$CONF" "$OUT" "$REGR" <<PY
 import json,sys,subprocess
-prop,x,dest,cmd,conf,out=sys.argv[1:7]
+prop,x,dest,cmd,conf,out,regr=sys.argv[1:8]
 det='''$DET'''
 try: c=json.loads(conf)
 except Exception: c={"raw":conf}
@@ -26,9 +28,10 @@ meta={
  "confirmed_by_builder":c,
  "repo_head_when_confirmed":subprocess.run(['git','-C','/repo','rev-parse','--short','HEAD'],capture_output=True,text=True).stdout.strip(),
  "check_run":f"tools/mutcheck.sh seeded/{prop}-{x}/patch.diff {prop}  (quick tier, VERIF_SEED=0, scratch worktree)",
+ "suite_tests_not_passing_with_patch":regr,
  "detected":bool(viol),
  "detection":[v[:400] for v in viol[:6]],
 }
 json.dump(meta,open(out+'/meta.json','w'),indent=1)
-print(f"{prop}-{x}: applies={c.get('applies')} demo clean/patched rc={c.get('demo_rc_without_patch')}/{c.get('demo_rc_with_patch')} suite-regressions={c.get('suite_stable_tests_not_passing_with_patch')} detected={bool(viol)}")
+print(f"{prop}-{x}: applies={c.get('applies')} demo clean/patched rc={c.get('demo_rc_without_patch')}/{c.get('demo_rc_with_patch')} suite-regressions={c.get('suite_stable_tests_not_passing_with_patch')} detected={bool(viol)} {regr}")
 PY
